@@ -568,8 +568,8 @@ func (f *nativeFuncObject) assertCallable() (func(FunctionCall) Value, bool) {
 }
 
 // callFromGo is how Go code (another built-in, the host) calls a native function: no script frame is pushed, but
-// the call counts towards the call depth limit, so that a cycle made of native functions only (Error.prototype.toString
-// of an error whose name is the error itself, ...) ends with a StackOverflowError instead of exhausting the Go stack.
+// the nesting is counted, so that a cycle made of native functions only (Error.prototype.toString of an error whose
+// name is the error itself, ...) ends with a StackOverflowError instead of exhausting the Go stack.
 func (f *nativeFuncObject) callFromGo(call FunctionCall) Value {
 	vm := f.val.runtime.vm
 	vm.enterNative()
